@@ -83,6 +83,14 @@ def gen(tier, seed):
                         continue
                     specs.append(("pc-outside:" + cmd, 0, SRC[orig], [],
                                   [("move", ("reg", 0), x), ("eval", "jmp r0"), c] + tail))
+    # labels that differ only in letter case name DIFFERENT words: the command must act on the one it names (and a spelling
+    # that no label has must be refused), whatever the iteration order of the symbol table
+    src_case, _ = dbggen.p_case_labels(rnd)
+    for name in ("Cell", "CELL", "cell", "cELL", "celL", "CeLL", "ceLL"):
+        for off in (0, 1, -1):
+            m = ("label", name, off)
+            for cmd in (("goto", m), ("move", ("mem", m), 0x4242), ("breakadd", m), ("breakremove", m), ("print", ("mem", m)), ("assembly", m)):
+                specs.append(("case-labels:" + cmd[0], 0, src_case, [], [("breakadd", ("label", "CELL", 0)), ("breakadd", ("label", "cell", 0)), cmd] + tail))
     # registers and values
     for r in range(8):
         for v in (0, 1, 0x7FFF, 0x8000, 0xFFFF, rnd.randrange(65536)):
